@@ -144,9 +144,11 @@ def drive_conversions(rec, count):
     if rec.progress("q120_b_from_znx64_simple / c_from_znx64 / c_from_b / b_to_znx128 on %d int64 values" % n):
         L.fn("q120_b_from_znx64_simple", "v upp")(n, Bb.addr, X.addr)
         L.fn("q120_c_from_znx64_simple", "v upp")(n, Cc.addr, X.addr)
+        bsnap = Bb.snapshot()
         L.fn("q120_c_from_b_simple", "v upp")(n, C2.addr, Bb.addr)
         L.fn("q120_b_to_znx128_simple", "v upp")(n, Rr.addr, Bb.addr)
-        if not all(b.canaries_ok() for b in (X, Bb, Cc, C2, Rr)) or not np.array_equal(X.i64, np.array(xs, dtype=np.int64)):
+        if not all(b.canaries_ok() for b in (X, Bb, Cc, C2, Rr)) or not np.array_equal(X.i64, np.array(xs, dtype=np.int64)) or \
+                not np.array_equal(Bb.u8, bsnap):
             rec.violation("q120 conversions: write outside an output or source modified", {})
         bl = Bb.u64.reshape(n, 4)
         cl = Cc.view(np.uint32).reshape(n, 8)
@@ -186,6 +188,8 @@ def drive_conversions(rec, count):
     if rec.progress("q120_b_to_znx128_simple around +-Q/2, q120_add_bbb_simple, q120_add_ccc_simple"):
         L.fn("q120_b_to_znx128_simple", "v upp")(m, Rl.addr, Bx.addr)
         L.fn("q120_add_bbb_simple", "v uppp")(m, Bs.addr, Bx.addr, By.addr)
+        if not (np.array_equal(Bx.u64, bx.reshape(-1)) and np.array_equal(By.u64, by.reshape(-1)) and all(b.canaries_ok() for b in (Bx, By, Bs, Rl))):
+            rec.violation("q120_b_to_znx128_simple / q120_add_bbb_simple: a source operand was modified, or a write outside the result", {})
         rl = Rl.u64.reshape(m, 2)
         bs = Bs.u64.reshape(m, 4)
         for i, v in enumerate(vals):
